@@ -263,7 +263,7 @@ theorem cellD_not_mem (d : Option Rat) (f : RFrame) (m : Option Dir) (c : String
   unfold cellD
   rw [(colOf_none_iff f c).mpr h]
 
-theorem frameCols_comm (ch : ColHow) (a b : RFrame) : frameCols ch a b = frameCols ch b a := by
+theorem frameCols_comm (ch : ColHow) (hch : ch = .ij ∨ ch = .oj) (a b : RFrame) : frameCols ch a b = frameCols ch b a := by
   unfold frameCols
   by_cases h : b.names = a.names
   · simp [h]
@@ -271,7 +271,7 @@ theorem frameCols_comm (ch : ColHow) (a b : RFrame) : frameCols ch a b = frameCo
     simp only [h, h', if_false]
     apply sortedS_ext _ _ (sorted_sortS _) (sorted_sortS _)
     intro t
-    cases ch
+    rcases hch with rfl | rfl
     · simp only [mem_sortS, List.foldl_cons, List.foldl_nil, mem_interS]; exact And.comm
     · simp only [mem_sortS, List.foldl_cons, List.foldl_nil, mem_unionS]; exact Or.comm
 
